@@ -182,18 +182,17 @@ def run_tape_rules(res, ast, rules=("BOUNDS-GUARD", "READ-NOALLOC", "TAPE-PAIR")
                     okall = False
                     why.append(f"`*self.buffer.add({iv})` is not inside `if {iv} < self.size`")
             res.check(okall, "BOUNDS-GUARD", f"{RUNTIME}|Memory::{name}|deref", w, f"Memory::{name}: " + "; ".join(why or ["no raw access found"]))
+        import pm
         fn = fns["write_out_of_bounds"]
-        t = T(ast, RUNTIME, fn["body"], 1000)
-        ok = t.startswith("{self.make_accessible(offset,offset+1);letptr=self.offset.wrapping_add_signed(offset);") and "*self.buffer.add(ptr)=value" in t
+        ok = pm.match_stmts(fn["body"]["stmts"], "self.make_accessible(__v_o, __v_o + 1); let __v_i = self.offset.wrapping_add_signed(__v_o); unsafe { *self.buffer.add(__v_i) = __v_val };") is not None
         res.check(ok, "BOUNDS-GUARD", f"{RUNTIME}|Memory::write_out_of_bounds", where(RUNTIME, fn, "write_out_of_bounds"),
                   "the slow path must call make_accessible(offset, offset + 1) and recompute the index from the same offset before the raw store")
-        t = T(ast, RUNTIME, fns["check"]["body"])
-        res.check(t == "{self.offset.wrapping_add_signed(offset)<self.size}", "BOUNDS-GUARD", f"{RUNTIME}|Memory::check", where(RUNTIME, fns["check"], "check"),
-                  f"check must be `self.offset.wrapping_add_signed(offset) < self.size` (strict); found `{t}`")
-        t = T(ast, RUNTIME, fns["check_ptr"]["body"])
-        res.check(t == "{((ptrasusize).wrapping_sub(self.bufferasusize)/mem::size_of::<C>())<self.size}", "BOUNDS-GUARD", f"{RUNTIME}|Memory::check_ptr",
-                  where(RUNTIME, fns["check_ptr"], "check_ptr"),
-                  f"check_ptr must compare the element index ((ptr - buffer) / size_of::<C>()) strictly with size; found `{t}`")
+        okc = pm.match_stmts(fns["check"]["body"]["stmts"], "self.offset.wrapping_add_signed(__v_o) < self.size") is not None
+        res.check(okc, "BOUNDS-GUARD", f"{RUNTIME}|Memory::check", where(RUNTIME, fns["check"], "check"),
+                  f"check must be `self.offset.wrapping_add_signed(offset) < self.size` (strict); found `{T(ast, RUNTIME, fns['check']['body'])}`")
+        okp = pm.match_stmts(fns["check_ptr"]["body"]["stmts"], "((__v_p as usize).wrapping_sub(self.buffer as usize) / mem::size_of::<C>()) < self.size") is not None
+        res.check(okp, "BOUNDS-GUARD", f"{RUNTIME}|Memory::check_ptr", where(RUNTIME, fns["check_ptr"], "check_ptr"),
+                  f"check_ptr must compare the element index ((ptr - buffer) / size_of::<C>()) strictly with size; found `{T(ast, RUNTIME, fns['check_ptr']['body'])}`")
         # no other raw deref of the buffer anywhere in runtime.rs
         alld = []
         for n, fn in fns.items():
@@ -236,9 +235,10 @@ def run_tape_rules(res, ast, rules=("BOUNDS-GUARD", "READ-NOALLOC", "TAPE-PAIR")
         # ordering of copy / free / field stores and the shared `added_below` are decided on MIR (TAPE-PAIR/MIR)
         guard = "ifself.size!=0{" in t and (p_copy < 0 or t.find("ifself.size!=0{") < p_copy)
         res.check(guard, "TAPE-PAIR", f"{RUNTIME}|make_accessible|empty-guard", w, "copy and free of the old block must be skipped when there is no old block (size == 0)")
-        dt = T(ast, RUNTIME, fns["drop"]["body"], 1000)
-        res.check("ifself.size!=0{" in dt and "Layout::array::<C>(self.size).unwrap()" in dt and "dealloc(self.bufferas*mutu8,old_layout)" in dt,
-                  "TAPE-PAIR", f"{RUNTIME}|Memory::drop", where(RUNTIME, fns["drop"], "Memory::drop"), "Drop must free iff size != 0 with Layout::array::<C>(self.size)")
+        import pm
+        okd = pm.match_stmts(fns["drop"]["body"]["stmts"],
+                             "if self.size != 0 { unsafe { let __v_l = Layout::array::<C>(self.size).unwrap(); dealloc(self.buffer as *mut u8, __v_l); } }") is not None
+        res.check(okd, "TAPE-PAIR", f"{RUNTIME}|Memory::drop", where(RUNTIME, fns["drop"], "Memory::drop"), "Drop must free iff size != 0 with Layout::array::<C>(self.size)")
         writers = {}
         for n, f_ in fns.items():
             for a in walk_t(f_.get("body") or {}, "Assign"):
@@ -254,6 +254,5 @@ def run_tape_rules(res, ast, rules=("BOUNDS-GUARD", "READ-NOALLOC", "TAPE-PAIR")
         nt = T(ast, RUNTIME, fns["new"]["body"])
         res.check("buffer:ptr::null_mut(),size:0,offset:0," in nt, "TAPE-PAIR", f"{RUNTIME}|Memory::new", where(RUNTIME, fns["new"], "Memory::new"),
                   "a new tape must be empty (null buffer, size 0, offset 0) so that every cell reads as zero")
-        mv = T(ast, RUNTIME, fns["mov"]["body"])
-        res.check(mv == "{self.offset=self.offset.wrapping_add_signed(offset);}", "TAPE-PAIR", f"{RUNTIME}|Memory::mov", where(RUNTIME, fns["mov"], "Memory::mov"),
-                  "mov must only adjust the logical offset")
+        okm = pm.match_stmts(fns["mov"]["body"]["stmts"], "self.offset = self.offset.wrapping_add_signed(__v_o);") is not None
+        res.check(okm, "TAPE-PAIR", f"{RUNTIME}|Memory::mov", where(RUNTIME, fns["mov"], "Memory::mov"), "mov must only adjust the logical offset")
